@@ -437,12 +437,12 @@ func (ctx *RenderContext) Clone() *RenderContext {
 	newCtx.engine = ctx.engine
 	newCtx.extending = false
 	newCtx.currentBlock = nil
-	newCtx.blockChain = copyBlockChain(ctx.blockChain)
+	newCtx.blockChain = nil
 	newCtx.currentChain = nil
 	newCtx.blockDepth = 0
 	newCtx.macroScopes = nil
 	newCtx.macroOrigins = nil
-	newCtx.blockOrigins = copyBlockOrigins(ctx.blockOrigins)
+	newCtx.blockOrigins = nil
 	newCtx.currentOrigins = nil
 	newCtx.parent = ctx
 	newCtx.inParentCall = false
